@@ -26,6 +26,23 @@ package vgirpc
 //@   at call (*array.BinaryBuilder).Append#1 assert [paramsrow] arg1 == paramsBytes && arg0 == paramsSchemaBuilder
 //@   at call (*array.BinaryBuilder).Append#2 assert [resultrow] arg1 == resultBytes && arg0 == resultSchemaBuilder
 //@   at call (*array.BinaryBuilder).Append#3 assert [headerrow] arg1 == headerBytes && arg0 == headerSchemaBuilder
+//@   # what goes into the hash inputs is, row by row, what was rendered for THIS method: the bytes
+//@   # serialized in this iteration (never a previous method's), nothing for a method without header
+//@   pathvar par []byte
+//@   pathvar res []byte
+//@   pathvar hdr []byte
+//@   at call serializeSchema#1 setflag par result
+//@   at call serializeSchema#2 setflag res result
+//@   at call serializeSchema#3 setflag res result
+//@   at call serializeSchema#4 setflag hdr result
+//@   at call append#1 assert [typeipc] arg0 == methodTypeStrs && len(arg1) == 1 && arg1[0] == (info.Type == MethodUnary ? "unary" : ((info.Type == MethodProducer || info.Type == MethodExchange || info.Type == MethodDynamic) ? "stream" : ""))
+//@   at call append#3 assert [paramsipc] arg0 == paramsSchemaIPC && len(arg1) == 1 && arg1[0] == par
+//@   at call append#4 assert [resultipc] arg0 == resultSchemaIPC && len(arg1) == 1 && arg1[0] == res
+//@   at call append#5 assert [hasheaderipc] arg0 == hasHeaders && len(arg1) == 1 && arg1[0] == info.HasHeader
+//@   pathvar hdrIter int
+//@   at call serializeSchema#4 setflag hdrIter rangeindex
+//@   at call append#6 assert [headeripc] arg0 == headerSchemaIPC && len(arg1) == 1 &&
+//@       ((len(arg1[0]) == 0 && arr(arg1[0]) == 0) || (arg1[0] == hdr && hdrIter == rangeindex))
 //@   at call computeProtocolHash assert [hashinput] arg0 == protocolName && arg1 == names && arg2 == methodTypeStrs && arg3 == hasReturns && arg4 == hasHeaders && arg5 == isExchanges &&
 //@       arg6 == paramsSchemaIPC && arg7 == resultSchemaIPC && arg8 == headerSchemaIPC
 //@   at call array.NewRecordBatch assert [rows] arg2 == len(names) && arg0 == describeSchema
